@@ -25,6 +25,7 @@ package car
 
 //@ func (*BlockReader).Next
 //@   requires inv: br.offset == pos(br.r)
+//@   assume stream_bound: pos(br.r) >= 0 && pos(br.r) <= 4611686018427387904
 //@   modifies pos(br.r), br.offset
 //@   let c, data, rerr := call[util.ReadNode#0]
 //@   ensures advance [C14]: err == nil ==> br.offset == old(br.offset) + vsize(bytelen(c) + len(data)) + bytelen(c) + len(data)
@@ -35,6 +36,7 @@ package car
 
 //@ func (*BlockReader).SkipNext
 //@   requires inv: br.offset == pos(br.r)
+//@   assume stream_bound: pos(br.r) >= 0 && pos(br.r) <= 4611686018427387904
 //@   requires origin: sbase(br.r) == 0
 //@   modifies pos(br.r), br.offset, br.readerSize
 //@   let sectionSize, e0 := call[util.LdReadSize#0]
